@@ -59,6 +59,58 @@ pub fn run(thorough: bool, seed: u64, _replay: Option<String>) -> Report {
             rep.fail("t3", "C18:multibyte-flag-model-disagrees", n, n.as_bytes(), None, "ismb");
         }
     }
+    // --- direct oracle on unrestricted detections: whatever name a match carries (main match or alternative)
+    // must be canonical, found by lookup, and name the codec that produced the text – also when the input
+    // starts with the mark of *another* encoding, is cut, or declares something else
+    {
+        let corpus = corpus(if thorough { 300_000 } else { 40_000 });
+        let mut cases: Vec<Case> = vec![];
+        for (mk_enc, body_enc) in [("utf-8", "windows-1252"), ("utf-8", "windows-1251"), ("utf-16le", "windows-1252"), ("utf-16be", "koi8-r"), ("gb18030", "windows-1252"), ("utf-8", "shift_jis"), ("utf-16le", "utf-8")] {
+            for (_, t) in TEXTS.iter().take(if thorough { 19 } else { 6 }) {
+                if let (Some(mk), Some(body)) = (mark_of(mk_enc), enc_bytes(t, body_enc)) {
+                    let mut b = mk.to_vec();
+                    for _ in 0..4 {
+                        b.extend_from_slice(&body);
+                        b.push(b' ');
+                    }
+                    cases.push(Case { bytes: b, sett: Sett::default(), tag: format!("mark-of-{}-before-{}", mk_enc, body_enc) });
+                }
+            }
+        }
+        for _ in 0..(if thorough { 1500 } else { 150 }) {
+            let mut r = rng.fork();
+            cases.push(structured_case(&mut r, &corpus));
+        }
+        for c in &cases {
+            rep.evaluations += 1;
+            rep.oracle_checked += 1;
+            rep.nontrivial(fp(&c.bytes, &c.sett.show()));
+            if let Ok(Ok(ms)) = real_detect_raw(&c.bytes, &c.sett) {
+                for top in ms.iter() {
+                    for m in std::iter::once(top).chain(top.submatch().iter()) {
+                        rep.count("oracle:unrestricted-detection-candidate");
+                        let name = m.encoding();
+                        if iana_name(name) != Some(name) {
+                            rep.fail("oracle", "C18:name-not-canonical", &format!("iana_name({}) = {:?}", name, iana_name(name)), &c.bytes, Some(&c.sett), &c.tag);
+                        }
+                        match ms.get_by_encoding(name) {
+                            Some(found) if found.suitable_encodings().contains(&name.to_string()) => {}
+                            _ => rep.fail("oracle", "C18:lookup-by-name-fails", name, &c.bytes, Some(&c.sett), &c.tag),
+                        }
+                        if !c.bytes.is_empty() {
+                            let helper = decode(strip_own_mark(name, &c.bytes), name, DecoderTrap::Strict, false, false).ok();
+                            if helper.as_deref() != m.decoded_payload() {
+                                rep.fail("oracle", "C18:decode-helper-differs-from-match-text", &format!("{} ({})", name, c.tag), &c.bytes, Some(&c.sett), &c.tag);
+                            }
+                        }
+                        if catch_unwind(AssertUnwindSafe(|| m.encoding_aliases())).is_err() {
+                            rep.fail("oracle", "C18:aliases-panic", name, &c.bytes, Some(&c.sett), &c.tag);
+                        }
+                    }
+                }
+            }
+        }
+    }
     // --- direct oracle, exhaustive over reportable names
     let probe_inputs: Vec<Vec<u8>> = {
         let mut v: Vec<Vec<u8>> = vec![b"hello world, plain text".to_vec()];
